@@ -1,5 +1,5 @@
 """Further primitive contracts (pandas, RNG, misc); registered on import."""
-from z3 import And, BoolSort, ForAll, If, Implies, Int, IntSort, IntVal, Not, Or, Real, RealSort, RealVal, ToReal
+from z3 import And, BoolSort, ForAll, If, Implies, Int, IntSort, IntVal, MultiPattern, Not, Or, Real, RealSort, RealVal, ToReal
 
 from .engine import (FV, INF, NINF, UF, Axis, EnumVal, Obj, T, Unsupported, b_and, b_not, b_or, boollike, intlike,
                      is_scalar, is_sym, ite, lift, pyint, toB, toI, toR)
@@ -87,3 +87,141 @@ def _nan_reduce(name):
 
 
 PRIMS["np.nansum"] = _nan_reduce("nansum_red")
+
+
+# ---- RNG primitives (assumed range contracts; every call is logged for the determinism / reproducibility obligations) ----
+from z3 import Function as _Fn, Sum as _Sum
+
+
+def _rng_log(ex, name, **info):
+    ex.rng_calls.append(name)
+    ex.__dict__.setdefault("rng_log", []).append(dict(name=name, **info))
+
+
+def _draw_tensor(ex, path, base, size, lo, hi, kind="int"):
+    """tensor of fresh draws of the given size, each in [lo, hi] (None = unbounded)"""
+    n = toI(size)
+    if kind == "int":
+        f = _Fn(f"{base}!{next(ex.fresh)}", IntSort(), IntSort())
+    else:
+        f = _Fn(f"{base}!{next(ex.fresh)}", IntSort(), RealSort())
+    i = Int("i!rng")
+    conds = []
+    if lo is not None:
+        conds.append(f(i) >= lo)
+    if hi is not None:
+        conds.append(f(i) <= hi)
+    if conds:
+        path.add(ForAll([i], Implies(And(0 <= i, i < n), And(*conds)), patterns=[f(i)]))
+    t = T((Axis(base, size),), lambda k, f=f: f(toI(k)), kind=kind, prov="fresh")
+    t.draw_fn = f
+    return t
+
+
+@prim("np.random.binomial")
+def p_binomial(ex, path, n=None, p=None, size=None):
+    _rng_log(ex, "np.random.binomial", n=n, p=p, size=size)
+    if size is None:
+        k = ex.new_int("binom")
+        path.add(And(0 <= k, k <= toI(n)))
+        return k
+    return _draw_tensor(ex, path, "binom", size, 0, toI(n))
+
+
+@prim("np.random.poisson")
+def p_poisson(ex, path, lam=None, size=None):
+    _rng_log(ex, "np.random.poisson", lam=lam, size=size)
+    if size is None:
+        k = ex.new_int("poisson")
+        path.add(k >= 0)
+        return k
+    return _draw_tensor(ex, path, "poisson", size, 0, None)
+
+
+@prim("np.random.choice")
+def p_choice(ex, path, a, size=None, replace=True, p=None):
+    _rng_log(ex, "np.random.choice", a=a, size=size, replace=replace)
+    if isinstance(a, T):
+        n = toI(a.axes[0].size)
+        ex.oblige("np.random.choice: population non-empty", path, n >= 1, "precondition")
+        if not replace:
+            ex.oblige("np.random.choice(replace=False): size <= population", path, toI(size) <= n, "precondition")
+        idx = _draw_tensor(ex, path, "choice_idx", size, 0, n - 1)
+        if not replace:
+            f = idx.draw_fn
+            i, j = Int("i!ch"), Int("j!ch")
+            path.add(ForAll([i, j], Implies(And(0 <= i, i < j, j < toI(size)), f(i) != f(j)), patterns=[MultiPattern(f(i), f(j))]))
+        out = T(idx.axes, lambda k, a=a, idx=idx: a.elem(idx.elem(k)), kind=a.kind, prov="fresh")
+        out.choice_of = (a, idx, replace)
+        return out
+    n = toI(a)
+    if size is None:
+        ex.oblige("np.random.choice: population non-empty", path, n >= 1, "precondition")
+        k = ex.new_int("choice")
+        path.add(And(0 <= k, k < n))
+        return k
+    # NumPy raises for an empty population unless size == 0
+    ex.oblige("np.random.choice: population non-empty (or nothing drawn)", path, Or(n >= 1, toI(size) == 0), "precondition")
+    t = _draw_tensor(ex, path, "choice", size, 0, n - 1)
+    t.choice_of = (a, None, replace)
+    return t
+
+
+@prim("np.random.normal")
+def p_normal(ex, path, loc=0.0, scale=1.0, size=None):
+    _rng_log(ex, "np.random.normal", size=size)
+    if size is None:
+        return ex.new_real("normal")
+    sz = size[0] if isinstance(size, tuple) else size
+    sz = sz.size if isinstance(sz, Axis) else sz
+    return _draw_tensor(ex, path, "normal", sz, None, None, kind="real")
+
+
+@prim("np.arange")
+def p_arange(ex, path, n):
+    if pyint(n):
+        return from_list(ex, path, list(range(n)))
+    t = T((Axis("arange", n),), lambda k: toI(k), kind="int", prov="fresh")
+    t.is_arange = True
+    return t
+
+
+@prim("np.repeat")
+def p_repeat(ex, path, a, repeats):
+    """np.repeat(np.arange(n), counts): requires len(counts) == n and counts >= 0; the result is non-decreasing, has length
+    sum(counts), takes values in [0, n) and the value i occurs counts[i] times"""
+    if not (isinstance(a, T) and getattr(a, "is_arange", False) and isinstance(repeats, T) and repeats.ndim == 1):
+        raise Unsupported("np.repeat (only np.repeat(np.arange(n), counts) has a contract)")
+    n = toI(a.axes[0].size)
+    ex.oblige("np.repeat: len(repeats) == len(a)", path, toI(repeats.axes[0].size) == n, "precondition")
+    k = ex.new_int("k")
+    ex.oblige("np.repeat: repeats >= 0", path.pc + [And(0 <= k, k < n)], toI(repeats.elem(k)) >= 0, "precondition")
+    from .prims import canon_lambda
+    total = UF("isum_red", ArraySort(IntSort(), IntSort()), IntSort(), IntSort())(canon_lambda(lambda i: toI(repeats.elem(i))), n)
+    R = _Fn(f"repeat!{next(ex.fresh)}", IntSort(), IntSort())
+    i, j = Int("i!rp"), Int("j!rp")
+    path.add(total >= 0)
+    # a sum of non-negative terms dominates each term: instantiated at the positions that were written explicitly
+    for w in getattr(repeats, "written", []):
+        if len(w) == 1:
+            path.add(Implies(And(0 <= toI(w[0]), toI(w[0]) < n), total >= toI(repeats.elem(w[0]))))
+    path.add(ForAll([i], Implies(And(0 <= i, i < total), And(0 <= R(i), R(i) < n)), patterns=[R(i)]))
+    path.add(ForAll([i, j], Implies(And(0 <= i, i <= j, j < total), R(i) <= R(j)), patterns=[MultiPattern(R(i), R(j))]))
+    t = T((Axis("repeat", total),), lambda q, R=R: R(toI(q)), kind="int", prov="fresh")
+    t.repeat_of = (a, repeats, total)
+    return t
+
+
+@prim("np.quantile")
+def p_quantile(ex, path, x, q, **kw):
+    return UF("quantile_of", IntSort(), RealSort(), RealSort())(IntVal(id(x) % 1000003), toR(q))
+
+
+@prim("ndarray.std")
+def p_std(ex, path, x, **kw):
+    return UF("std_of", IntSort(), RealSort())(IntVal(id(x) % 1000003))
+
+
+@prim("np.median")
+def p_median(ex, path, x, **kw):
+    return UF("median_of", IntSort(), RealSort())(IntVal(id(x) % 1000003))
